@@ -249,6 +249,28 @@ func (h *SH) Sub(ctx context.Context, tok int, n int) (<-chan int, error) {
 	return out, nil
 }
 
+// SubMixed sends n values of which every third does not fit into an int8 (what the client of SubSmall declared).
+func (h *SH) SubMixed(ctx context.Context, tok int, n int) (<-chan int, error) {
+	h.C.enter(ctx, "SubMixed", tok)
+	out := make(chan int)
+	go func() {
+		defer close(out)
+		defer h.C.exit(tok, "stream-end")
+		for i := 0; i < n; i++ {
+			v := i % 100
+			if i%3 == 2 {
+				v = 1<<40 + i
+			}
+			select {
+			case out <- v:
+			case <-ctx.Done():
+				return
+			}
+		}
+	}()
+	return out, nil
+}
+
 // Rich is a stream element with storage of its own (slice, map, optional pointer): values that share or
 // reuse storage across elements show up as elements that change after they were delivered.
 type Rich struct {
@@ -284,6 +306,26 @@ func (h *SH) SubRich(ctx context.Context, tok int, n int) (<-chan Rich, error) {
 		for i := 0; i < n; i++ {
 			select {
 			case out <- RichOf(tok, i):
+			case <-ctx.Done():
+				return
+			}
+		}
+	}()
+	return out, nil
+}
+
+// Firehose streams 16 KiB strings from a deep-buffered channel that its producer keeps full until the
+// context ends: the forwarder never finds this channel empty.
+func (h *SH) Firehose(ctx context.Context, tok int) (<-chan string, error) {
+	h.C.enter(ctx, "Firehose", tok)
+	out := make(chan string, 1024)
+	item := strings.Repeat("f", 16<<10)
+	go func() {
+		defer close(out)
+		defer h.C.exit(tok, "stream-end")
+		for {
+			select {
+			case out <- item:
 			case <-ctx.Done():
 				return
 			}
@@ -361,6 +403,8 @@ type CL struct {
 	Sub           func(context.Context, int, int) (<-chan int, error)
 	SubSlow       func(context.Context, int, int) (<-chan int, error)
 	SubRich       func(context.Context, int, int) (<-chan Rich, error)
+	Firehose      func(context.Context, int) (<-chan string, error)
+	SubSmall      func(context.Context, int, int) (<-chan int8, error) `rpc_method:"SH.SubMixed"` // the client's element type cannot hold every value the server sends
 	SubEnd        func(context.Context, int) (<-chan int, error)
 	CallBack      func(context.Context, int) (int, error)
 	BlockBig      func(context.Context, int, int) (string, error)
